@@ -24,6 +24,8 @@ pub fn kind_code(k: io::ErrorKind) -> u128 {
         InvalidInput => 4,
         InvalidData => 5,
         Interrupted => 6,
+        // injected as fault kind 6 by the sched family; the model treats it as any other kind
+        TimedOut => 0,
         _ => 50,
     }
 }
@@ -277,6 +279,16 @@ pub fn outboard(a: &[u128]) -> Vec<u128> {
             let r = SC::init_from(&mut ob, Cursor::new(&longer));
             (io_rc(&r), Some(Ob::PostIO(ob)))
         }
+        19 => {
+            // two copies of the blob back to back on one stream: the second creation starts where the first stopped
+            let mut twice = data.clone();
+            twice.extend_from_slice(&data);
+            let mut cur = Cursor::new(&twice);
+            let first = <PreOrderOutboard<Vec<u8>> as SC>::create_sized(&mut cur, size, bsz);
+            let r = <PostOrderOutboard<Vec<u8>> as SC>::create_sized(&mut cur, size, bsz);
+            let ok = first.is_ok() && cur.position() == 2 * size;
+            (if ok { io_rc(&r) } else { 77 }, r.ok().map(Ob::PostIO))
+        }
         _ => panic!("entry"),
     };
     match ob {
@@ -364,6 +376,9 @@ pub fn encode(a: &[u128]) -> Vec<u128> {
         if w == 4 {
             // the provider holds only a prefix of the blob (complete outboard)
             data.truncate(pos);
+        } else if w == 5 {
+            // the data file is longer than the blob the outboard describes
+            data.extend_from_slice(&vec![0x5Au8; pos]);
         } else if w == 0 {
             if !data.is_empty() {
                 let p = pos % data.len();
@@ -550,7 +565,7 @@ pub fn decode(a: &[u128]) -> Vec<u128> {
     let mut consumed = 0u128;
     let mut hash_ok = 1u128;
     let mut tree_ok = 1u128;
-    let mut target: Vec<u8> = if driver == 2 || driver == 3 { vec![0u8; claimed as usize] } else { Vec::new() };
+    let mut target: Vec<u8> = if driver == 2 || driver == 3 { vec![0xA5u8; claimed as usize] } else { Vec::new() };
     let mut ob_dg = 0u128;
     let set_err = |e: DecodeError, outcome: &mut (u128, u128), iokind: &mut u128| {
         *outcome = dec_rc(&e);
@@ -706,6 +721,7 @@ pub fn validate(a: &[u128]) -> Vec<u128> {
                 }
             }
             4 => data.truncate(pos),
+            5 => data.extend_from_slice(&vec![0x5Au8; pos]),
             _ => {
                 if let Some(d) = ob.data_mut() {
                     for x in d.iter_mut().skip(pos) {
